@@ -10,6 +10,8 @@
 package vconn
 
 import (
+	"strings"
+	"strconv"
 	"errors"
 	"fmt"
 	"io"
@@ -176,9 +178,19 @@ func MkErr(kind, op string, local, remote net.Addr) error {
 		return fmt.Errorf("transport: %w", sys(syscall.ECONNRESET))
 	case "wrapped-enetunreach":
 		return fmt.Errorf("transport: %w", sys(syscall.ENETUNREACH))
+	case "emfile":
+		return sys(syscall.EMFILE)
+	case "enfile":
+		return sys(syscall.ENFILE)
 	case "text":
 		// an error that is only text (e.g. produced by a library that formats the OpError)
 		return errors.New(wrap(os.NewSyscallError(op, syscall.ENETUNREACH)).Error())
+	}
+	if strings.HasPrefix(kind, "errno:") {
+		// any errno by number, e.g. "errno:24"
+		if n, err := strconv.Atoi(kind[len("errno:"):]); err == nil && n > 0 {
+			return sys(syscall.Errno(n))
+		}
 	}
 	return wrap(errors.New(kind))
 }
